@@ -193,6 +193,21 @@ def run(v, tier, seed, replay):
                         mism.append((ci, io[:100], "undecodable: %s" % ex))
                 elif mo != io:
                     mism.append((ci, io[:100], mo[:100]))
+    # the proved decoder (C19_jaeger_roundtrip) on the REAL datagrams must give the model's view of the records
+    jd_lines, jd_meta = [], []
+    if impl is not None:
+        for ci, ((which, b), out) in enumerate(zip(cases, impl)):
+            if which == "jaeger" and out.startswith("dg") and len(out.split()) == 2:
+                jd_lines.append("jdec " + out.split()[1]); jd_meta.append(ci)
+                jd_lines.append("jview %s %s" % (G.hx(svc), G.wire_records(b))); jd_meta.append(ci)
+    decoded_ok = 0
+    if jd_lines and os.path.exists(C.FMODEL):
+        rc, jo, _ = C.run_lines(C.FMODEL, "report", jd_lines)
+        for k in range(0, len(jo) - 1, 2):
+            if jo[k] != jo[k + 1]:
+                fails.append((jd_meta[k], "the proved Thrift decoder reads the real datagram as %r; the records are %r" % (jo[k][:300], jo[k + 1][:300])))
+            else:
+                decoded_ok += 1
     for ci, bad in fails[:3]:
         v.violation(bad, {"reporter": cases[ci][0], "batch": cases[ci][1], "request": lines[ci][:3000],
                           "implementation": impl[ci][:3000] if impl and ci < len(impl) else None, "model": model[ci][:3000] if model and ci < len(model) else None})
@@ -217,7 +232,7 @@ def run(v, tier, seed, replay):
         "rule": "batches of 0-300 records from VERIF_SEED (ids with top bit set / all ones / zero, UTF-8 names keys values incl. empty and multi-byte, repeated property keys, 0-3 events, times up to 2^64-1 with begin+duration < 2^64), round-robin over the three reporters; non-trivial = distinct batch with at least one property or event",
         "samples": [{"reporter": w, "records": len(b), "first": (G.wire_record(b[0])[:200] if b else None)} for w, b in cases[:5]],
         "traces_validated_against_impl": len(cases) if impl is not None else 0, "batches_per_reporter": per, "records": recs,
-        "correspondence_mismatches": len(mism), "oracle_failures": len(fails),
+        "correspondence_mismatches": len(mism), "oracle_failures": len(fails), "real_datagrams_decoded_by_proved_decoder": decoded_ok,
     }
     v.assumptions = ["records satisfy begin+duration < 2^64 (every record a collector cycle produces does; OpenTelemetryReporter::convert overflows otherwise — D11)",
                      "Datadog: start/duration are i64 on the wire (values >= 2^63 wrap, a limit of the format as implemented); meta order is the hash map's and is compared as a map",
